@@ -239,3 +239,22 @@ for tag, mn, arg, decl in [('fd', '_ZN4CDNS11CdnsEncoder13rotate_outputIiEEvRKT_
 UNITS.append(Unit('enc.dtor', ('@_ZN4CDNS11CdnsEncoderD1Ev', None), contract=EDTOR_C, prelude='byte_enc_rot.h', setup=ROT_SETUP, args=['&obj'],
                   inline=[(ENC + 'flush_buffer', None)], stubs=SINK, props=['C15', 'C13'],
                   note='destruction flushes the staging buffer (every produced byte reaches the sink unless the sink rejects it) and never throws'))
+
+# ---------------------------------------------------------------- constructor: the writer chain matches the requested compression (C14), staging buffer empty (base case of ENC_INV)
+ECTOR_C = '''
+__CPROVER_requires(__CPROVER_r_ok($1, sizeof(*$1)) && g_exc == 0 && g_mkw_count == 0)
+__CPROVER_assigns(g_mkw_count, g_mkw_kind, g_exc)
+__CPROVER_ensures(g_exc == 0 || g_exc == EXC_CborOutputException || g_exc == EXC_CdnsEncoderException)
+__CPROVER_ensures((g_exc == EXC_CdnsEncoderException) == ((unsigned char)$2 > 2))
+__CPROVER_ensures((unsigned char)$2 <= 2 ==> (g_mkw_count == 1 && g_mkw_kind == (int)(unsigned char)$2))
+__CPROVER_ensures((unsigned char)$2 > 2 ==> g_mkw_count == 0)
+__CPROVER_ensures(g_exc == 0 ==> ($ret.m_avail == 2048 && $ret.m_p == $ret.m_buffer))
+'''
+for tag, mn, decl in [('fd', '_ZN4CDNS11CdnsEncoderC1IiEERKT_NS_21CborOutputCompressionE', 'int a_out;'),
+                      ('string', '_ZN4CDNS11CdnsEncoderC1INSt7__cxx1112basic_stringIcSt11char_traitsIcESaIcEEEEERKT_NS_21CborOutputCompressionE', 'cstring a_out;')]:
+    UNITS.append(Unit('enc.ctor.' + tag, ('@' + mn, None), contract=ECTOR_C, prelude='byte_enc_ctor.h', opaque={'boost::any': 'struct any'},
+                      stubs=['make_unique__\\w+', 'uptr_assign', 'lib_memset', 'mkw'],
+                      setup='  ' + decl + ' unsigned char a_c;\n  g_mkw_count = 0;\n', args=['&a_out', 'a_c'], props=['C14', 'C06'], timeout=300,
+                      post='  if (g_exc == EXC_CdnsEncoderException) { CANARY("unknown compression reachable"); }',
+                      note='a new encoder creates exactly one writer, of the class the requested compression names (none / gzip / xz; any other value is refused), '
+                           'and starts with an empty staging buffer of 2048 bytes'))
